@@ -8,6 +8,7 @@ from __future__ import annotations
 
 import ast
 import inspect
+import os
 import random
 import re
 
@@ -25,6 +26,66 @@ KIND_NAMES[PAIR] = 'pair'
 def _fst():
     import fst
     return fst
+
+
+def fork_map(func, items, nchunks=48, procs=16):
+    """Parallel map without multiprocessing.Pool: contiguous chunks, ONE freshly forked process per chunk (no pfst state leaks
+    between chunks, deterministic chunk contents), results sent back over a pipe.  Pool(maxtasksperchild=1) was observed to end
+    a run with a BrokenPipeError raised while the pool was being torn down (worker re-population racing with terminate).
+    A chunk whose process dies or raises yields {'crash': ...} entries instead of killing the run."""
+    import multiprocessing as mp
+    import pickle
+    import traceback
+    from multiprocessing.connection import wait
+    items = list(items)
+    if not items:
+        return []
+    n = len(items)
+    size = max(1, -(-n // max(1, nchunks)))
+    chunks = [(i, items[i:i + size]) for i in range(0, n, size)]
+    ctx = mp.get_context('fork')
+    out = [None] * n
+    pending = list(reversed(chunks))
+    running = {}          # reader connection -> (process, start, length, buffer)
+
+    def child(conn, chunk):
+        try:
+            res = []
+            for x in chunk:
+                try:
+                    res.append(func(x))
+                except Exception:
+                    res.append({'crash': traceback.format_exc()[-1500:], 'rounds': [], 'skip': 'harness crash'})
+            conn.send_bytes(pickle.dumps(res, protocol=pickle.HIGHEST_PROTOCOL))
+        except BaseException:
+            try:
+                conn.send_bytes(pickle.dumps({'chunk_crash': traceback.format_exc()[-1500:]}))
+            except Exception:
+                pass
+        finally:
+            conn.close()
+            os._exit(0)
+
+    while pending or running:
+        while pending and len(running) < procs:
+            start, chunk = pending.pop()
+            r, w = ctx.Pipe(duplex=False)
+            p = ctx.Process(target=child, args=(w, chunk))
+            p.start()
+            w.close()
+            running[r] = (p, start, len(chunk))
+        for r in wait(list(running), timeout=5):
+            p, start, ln = running.pop(r)
+            try:
+                data = pickle.loads(r.recv_bytes())
+            except (EOFError, OSError) as e:
+                data = {'chunk_crash': f'worker process ended without a result ({type(e).__name__}), exit code {p.exitcode}'}
+            r.close()
+            p.join()
+            if isinstance(data, dict):
+                data = [{'crash': data['chunk_crash'], 'rounds': [], 'skip': 'harness crash'} for _ in range(ln)]
+            out[start:start + ln] = data
+    return out
 
 
 def fields_of(cls):
@@ -1188,22 +1249,24 @@ def snapshot_stmts(root):
     """for every statement: path (list of (field, idx)), chain of object ids from the root, ids of its subtree, dump"""
     out = []
 
-    def go(n, path, chain):
+    def go(n, path, chain, objs):
         for field, v in ast.iter_fields(n):
             if isinstance(v, list):
                 for i, c in enumerate(v):
                     if isinstance(c, ast.AST):
-                        visit(c, path + [(field, i)], chain)
+                        visit(c, path + [(field, i)], chain, objs)
             elif isinstance(v, ast.AST):
-                visit(v, path + [(field, None)], chain)
+                visit(v, path + [(field, None)], chain, objs)
 
-    def visit(c, path, chain):
+    def visit(c, path, chain, objs):
         ch = chain + [id(c)]
         if isinstance(c, ast.stmt):
-            out.append({'path': path, 'chain': ch, 'ids': [id(x) for x in ast.walk(c)], 'dump': ast.dump(c), 'node': c})
-        go(c, path, ch)
+            # `nodes` / `objs` keep every object alive: an id() of a freed node can be reused by a node created later
+            out.append({'path': path, 'chain': ch, 'ids': [id(x) for x in ast.walk(c)], 'dump': ast.dump(c), 'node': c,
+                        'nodes': list(ast.walk(c)), 'objs': objs + [c]})
+        go(c, path, ch, objs + [c])
 
-    go(root, [], [id(root)])
+    go(root, [], [id(root)], [root])
     return out
 
 
